@@ -10,7 +10,7 @@ import numpy as np
 
 from ..core import util
 from ..oracles import graphs as G
-from ..workloads import gmat
+from ..workloads import gmat, callforms
 
 TECHNIQUE = "runtime monitor with recording noise/assignment callables around ANM.sample; row equations re-derived from the final sample with the checker's own parent sets"
 LEVEL_TEXT = ("For thousands of random DAGs (p<=8, signed and cancelling weight matrices as adjacency), non-symmetric non-linear "
@@ -149,7 +149,11 @@ def judge(family, case, rec):
         model = sempler.ANM(A, assigns, noises)
         if case["cseed"] % 3 == 0:
             do = {np.int64(k): v for k, v in do.items()}
-        Xs = model.sample(np.int64(n) if case["cseed"] % 4 == 0 else n, do_interventions=do, shift_interventions=shift, noise_interventions=noise, random_state=case["rs"])
+        if case["cseed"] % 5 == 2:      # every argument positionally, in the documented order
+            Xs = model.sample(*callforms.positional("ANM.sample", n, do_interventions=do, shift_interventions=shift, noise_interventions=noise, random_state=case["rs"]))
+            rec.count("call-form:positional")
+        else:
+            Xs = model.sample(np.int64(n) if case["cseed"] % 4 == 0 else n, do_interventions=do, shift_interventions=shift, noise_interventions=noise, random_state=case["rs"])
     except Exception as e:
         rec.exception_violation("C02:exception-" + type(e).__name__, family, case, "ANM construction / sampling raised %s" % type(e).__name__, e)
         return
